@@ -7,6 +7,7 @@ import (
 	"fmt"
 	"strings"
 	"testing"
+	"time"
 
 	"github.com/alicebob/miniredis/v2"
 	"github.com/redis/go-redis/v9"
@@ -77,7 +78,13 @@ func (x *c26Pair) openLeveldb() {
 }
 
 func (x *c26Pair) openRedis() {
-	st, err := redisstorage.NewStorage(context.Background(), &redis.Options{Network: "tcp", Addr: x.mredis.Addr()}, "vf-c26")
+	// NOTE generous timeouts: on a busy machine the in-process server may answer later than go-redis's
+	// default 3 s; an i/o timeout is an environment failure the check does not model
+	st, err := redisstorage.NewStorage(context.Background(), &redis.Options{
+		Network: "tcp", Addr: x.mredis.Addr(),
+		DialTimeout: 2 * time.Minute, ReadTimeout: 5 * time.Minute, WriteTimeout: 5 * time.Minute, PoolTimeout: 5 * time.Minute,
+		MaxRetries: -1,
+	}, "vf-c26")
 	vfMust(err)
 
 	x.rst = st
